@@ -75,6 +75,24 @@ CHECKS.update({
    text='16 obligations: entities_complete/entities_sound (table rows = entities: types, enums, sets, composites public and inline, refs, values, choices, messages, fields, groups at any depth, data), traits_copy_attributes + ref_attributes (descriptive traits are the XML attributes), traits_derived* (presence = actual presence; block lengths; composite size; element/field offsets = validator offsets; default min/max/null = SBE table), children_lists_in_schema_order, tags_distinct (under unique sibling names), predicates_classify; ref_deprecated_full kept as def, refuted (ref_deprecated_full_false) and proved under the exact hypothesis (ref_deprecated_partial). Correspondence: every trait, *_ok type relations, traits_tag round trips, 11 predicates per tag, generic child-list walk on 20 (quick) / 120 (thorough) generated schemas.',
    note='Trusted: hand-written Gen/Traits.lean and string renderings tied to sbeppc by the differential run only; c18gen.Oracle and c18_dump.hpp helpers; decimal floating-point literals converted by Python. type_tags compared as a set; offsets of constant members not judged; size_bytes(...) left to C05. Open known finding: a <ref> inherits deprecated() from its target.'),
 })
+CHECKS.update({
+ 'C04': dict(
+   technique='Lean 4 proof (generator cursor-offset fold = validator offsets; the 5 cursor classes x 10 methods = documented protocol over random-access geometry; mutual structural induction for complete traversal; resolver/compile well-formedness) + Layer G (REL/ABS/variant of every generated cursor accessor parsed from sbeppc output; assertion and size-check sites extracted from sbepp.hpp) + Layer R (generated per-schema dispatcher over (member x wrapper) running scripted call sequences through the real accessors, checked and unchecked builds)',
+   text='16 obligations: cursor_abs_eq_random, compiled_accessors, cursor_rel_chain, cursor_step_{field,set,group,data}, cursor_step, cursor_step_protocol (every step of every wrapper equals the protocol specification: value/view = random access, cursor at the documented Post position, for all cursor values in checked builds and whenever Pre holds in unchecked builds), cursor_wrong_position_reported (illegal plain/dont_move/skip calls are reported before anything is read), cursor_traversal_end_{partial,image,schema}, cursor_entry_traversal_end, protocol_geometry_is_image_geometry; cursor_traversal_end_full kept as def and refuted by the member-less message witness (known finding). Streams: legal traversals with random wrappers, setters and range splits; one illegal call injected at every position; BFS of all call sequences to depth 3 (quick) / 4 (thorough) over member x wrapper; cursor_subrange preconditions; truncated views; whole-message cursor decode/encode.',
+   note='Trusted: Rt/Cursor.lean (hand transliteration tied to the code by the site extractor and differential runs only); the script interpreter is a partial def; entries created from a misplaced cursor are unspecified. Known findings C03-empty-message-cursor-size(-encode).'),
+ 'C08': dict(
+   technique='Lean 4 proof (first-error transliteration of parser + SBE validator + C++ validator <=> declarative violation list: both directions of the accept/reject decision, soundness of class + entity, cycle detection by DFS with in-progress set) + three-way differential (real sbeppc vs model vs spec) on generated schemas and every single-rule edit at every applicable position',
+   text='17 obligations: check_ok_iff_rules_partial (accepted <=> no enforced rule broken), rejects_every_broken_schema / accepts_every_rule_abiding_schema, check_error_sound (+ _hash_order for the unordered_map loops), cycle_detection_complete, parseNum_spec, accepted_no_overlap / accepted_members_in_block, keyword_lists_agree; C08_full kept as def and refuted by two kernel-checked witnesses (open findings). Correspondence: ~20k (quick) / ~130k (thorough) schemas; exit status, first diagnostic -> class (45-regex table), line -> entity; 14 rule families x positions (top-level, inline, nested, ref target, header member inline/ref, message, group depth 1-3, data).',
+   note='Hypotheses FpAgree (float-literal acceptance: differential + kernel-checked boundary grid), CharEnumsPlain, NoTopLevelRef; the model receives the AST (XML well-formedness / missing attributes / includes are C09); keyword and primitive tables string-compared with /repo on every run; accepted_* conditional on the layout model resolving (FUEL = 64). 3 open findings.'),
+ 'C09': dict(
+   technique='Lean 4 proof over a pipeline model whose guard table is compared with the unchecked-access sites extracted from the sbeppc sources on every run (decide +kernel over the whole list) + refutation witnesses replayed on a hardened (ASan/UBSan/_GLIBCXX_ASSERTIONS/assert) sbeppc + structure-aware garbling differential (totality oracle)',
+   text='24 obligations: unchecked_sites_covered (162 sites: .at, std::get, get_if/optional dereference, assert, [n], front/back, strto*, resize, run-time format string, recursion), crash_only_at_unguarded, run_no_crash_partial, run_terminates / run_fuel_stable / include_cycle_exhausts_any_fuel, rejected_leaves_no_files_partial, ok_writes_all_files; full-strength run_no_crash and rejected_leaves_no_files refuted with kernel-checked witnesses that the check replays on the real binary. Fuzz: 4.2k (quick) / up to 100k (thorough) garbled inputs and argv combinations, failures minimised.',
+   note='PARTIAL by nature (DESIGN 10). Trusted: extract/unchecked_sites.py (regex/brace scanner), the hand classification of guarded sites (Sound env is a hypothesis, exercised only by fuzzing), sanitizers. pugixml/fmt/libstdc++ not modelled. Open findings listed in known_findings.json.'),
+ 'C20': dict(
+   technique='Lean 4 proof over an emission model with an arbitrary fault schedule (k-th mkdir/open/write/close fails or writes short) + LD_PRELOAD shim failing EVERY k of every call family on the real sbeppc, byte comparison; determinism runs (ASLR, environment, fresh/populated/stale directory); source scan for nondeterminism sources',
+   text='12 obligations: exit0_all_files_complete_partial, fault_gives_diag_partial (iff), rerun_idempotent, output_function_of_schema, no_nondeterminism_sources, hash_iterations_string_keyed; the full-strength statements are refuted by witnesses replayed on the real binary. 3.6k (quick) / 12.9k (thorough) single-fault runs, 100% of scheduled faults fired; impl compared with spec and model row by row.',
+   note='PARTIAL by nature. Trusted: harness/iofault.c, the call-level model of basic_filebuf (fopen/write/writev/fclose confirmed by strace). libstdc++ mapping of failing write(2) to badbit and hash seeding are observed, not proved.'),
+})
 NOT_APPLICABLE = {}
 
 ALL = ['C%02d' % i for i in range(1, 21)]
